@@ -453,4 +453,304 @@ theorem PIPE_mixture_estimate_iff (reg : List String) (S : SchemeDef) (lib : Lib
   rw [(estimate_range reg lib rA set eA0 heA).1, (estimate_range reg lib rB set eB0 heB).1]
   simp [mixP, mixKind, estPart]
 
+/-- **A mixture as RDKit numbers it.**  RDKit's graph `M` of `'A.B'` is `A ⊔ B` renumbered (`MolIso π (A ⊔ B) M`, re-checked
+by the harness on every mixture with the explicit permutation): the pipeline on `M` has the same outcome as on `A ⊔ B`, so
+`PIPE_mixture_additive` / `PIPE_mixture_failure` speak about `lib.Estimate(lib.GetDescriptors('A.B'), set)`.
+(`PIPE_relabel_invariant` at `m := A ⊔ B`.) -/
+theorem PIPE_mixture_as_numbered_by_rdkit (sel : Nat → Option Rat) (reg : List String) (S : SchemeDef) (lib : Lib) (set : String)
+    (A B M : Mol) {π : Nat → Nat} (iso : MolIso π (A.union B) M) (H : UnionHyps S A B)
+    (capm : maxRaw S (aromatizeBenson M) < maxMatches) :
+    SameOutcome sel (pipeline reg S lib (A.union B) set) (pipeline reg S lib M set) := by
+  have capu' : maxRaw S (aromatizeBenson (A.union B)) < maxMatches := by
+    rw [aromatizeBenson_union A B H.hA H.hB]; exact H.capu
+  exact PIPE_relabel_invariant sel reg S lib set iso (wf_union A B H.hA H.hB) H.hq H.hs capu' capm H.hcf
+
+/-! #### the uncertainty block: `xᵀMx` is quadratic, not additive -/
+
+/-- **C04 ∘ C20: the quadratic form of a mixture.**  Under the hypotheses of `PIPE_mixture_additive`, for a library with
+uncertainty data `u` (distinct basis entries): the count vectors add up, `x(A ⊔ B) = x(A) + x(B)` (in basis order), and
+therefore `q = xᵀMx` of the mixture is `q_A + q_B + x_AᵀM x_B + x_BᵀM x_A` (`= q_A + q_B + 2·x_AᵀM x_B` for a symmetric `M`) —
+with the library's RMSE correlation and degrees of freedom unchanged.  The standard error `|RMSE|·√q` (C20) of a mixture is
+therefore **not** the sum of the components' (`PIPE_mixture_quadratic_additive_full_fails`). -/
+theorem PIPE_mixture_quadratic (reg : List String) (S : SchemeDef) (lib : Lib) (set : String)
+    (A B : Mol) (H : UnionHyps S A B) (hsep : SeparatedMol S A B) (eU eA eB : Estimator)
+    (hU : pipeline reg S lib (A.union B) set = .ok eU) (hA : pipeline reg S lib A set = .ok eA)
+    (hB : pipeline reg S lib B set = .ok eB) (u : UQ String) (hu : lib.uq = some u) (hb : u.basis.Nodup) :
+    ∃ rU rA rB qU qA qB, decompose S (A.union B) = .ok rU ∧ decompose S A = .ok rA ∧ decompose S B = .ok rB ∧
+      eU.uq = some qU ∧ eA.uq = some qA ∧ eB.uq = some qB ∧
+      specX u.basis rU = vplus (specX u.basis rA) (specX u.basis rB) ∧
+      qU.q = qA.q + qB.q + specBilin u.mat (specX u.basis rA) (specX u.basis rB)
+                         + specBilin u.mat (specX u.basis rB) (specX u.basis rA) ∧
+      qU.rmse = u.rmse ∧ qA.rmse = u.rmse ∧ qB.rmse = u.rmse ∧ qU.dof = u.dof ∧ qA.dof = u.dof ∧ qB.dof = u.dof := by
+  obtain ⟨rU, eU0, hdU, heU, rfl⟩ := (pipeline_ok_iff reg S lib _ set eU).mp hU
+  obtain ⟨rA, eA0, hdA, heA, rfl⟩ := (pipeline_ok_iff reg S lib _ set eA).mp hA
+  obtain ⟨rB, eB0, hdB, heB, rfl⟩ := (pipeline_ok_iff reg S lib _ set eB).mp hB
+  obtain ⟨nU, nA, nB, hk, hg⟩ := union_counts H rU rA rB hdU hdA hdB
+  have hg := hg hsep
+  obtain ⟨qU, u1, u2, u3, u4, _⟩ := C20_q reg lib rU set eU0 u heU hu nU hb
+  obtain ⟨qA, a1, a2, a3, a4, _⟩ := C20_q reg lib rA set eA0 u heA hu nA hb
+  obtain ⟨qB, b1, b2, b3, b4, _⟩ := C20_q reg lib rB set eB0 u heB hu nB hb
+  have hx := specX_add u.basis rU rA rB hg
+  refine ⟨rU, rA, rB, qU, qA, qB, hdU, hdA, hdB, u1, a1, b1, hx, ?_, u2, a2, b2, u3, a3, b3⟩
+  rw [u4, a4, b4, hx]
+  exact specQuad_vplus u.mat _ _ (by rw [specX_length, specX_length])
+
+/-- **The full statement — standard errors of a mixture from additive quadratic forms — is false of the code (and of any
+quadratic form).** -/
+def PIPE_mixture_quadratic_additive_full : Prop :=
+  ∀ (reg : List String) (S : SchemeDef) (lib : Lib) (set : String) (A B : Mol), UnionHyps S A B → SeparatedMol S A B →
+    ∀ eU eA eB qU qA qB, pipeline reg S lib (A.union B) set = .ok eU → pipeline reg S lib A set = .ok eA →
+      pipeline reg S lib B set = .ok eB → eU.uq = some qU → eA.uq = some qA → eB.uq = some qB → qU.q = qA.q + qB.q
+
+/-! #### non-vacuity and the witness: two copies of a C–H fragment under the two-entry scheme of `Props/C04.lean` -/
+namespace ExMix
+open PGA.C04
+
+def cC : Corr := ⟨fun _ => .ok 2, fun T => .ok (T / 100), fun _ => .ok 3, some (100, 1000)⟩
+def cH : Corr := ⟨fun _ => .ok 1, fun _ => .ok (-1), fun _ => .ok (1/2), some (200, 1500)⟩
+def cD : Corr := ⟨fun _ => .ok 0, fun _ => .ok (1/4), fun _ => .error .incomplete, none⟩
+def rm : Corr := ⟨fun _ => .ok 1, fun _ => .ok 1, fun _ => .ok 1, none⟩
+/-- the three names the scheme produces on the fragment, with an uncertainty block whose matrix has off-diagonal entries -/
+def lib : Lib :=
+  ⟨[("C(H)", [("thermochem", cC)]), ("H(C)", [("thermochem", cH)]), ("CH", [("thermochem", cD)])],
+   some ⟨rm, ["CH", "C(H)", "H(C)"], [[1, 0, 0], [0, 2, 1], [0, 1, 3]], 5⟩, none⟩
+/-- the same without the entry for the correction descriptor -/
+def libNoCH : Lib := ⟨[("C(H)", [("thermochem", cC)]), ("H(C)", [("thermochem", cH)])], none, none⟩
+
+theorem hyps : UnionHyps exScheme exMol exMol :=
+  ⟨by decide, by decide, by decide, by decide, by decide, by decide, by decide, by decide, by decide,
+   by intro k ts h; simp [exScheme, lookupRemap] at h⟩
+
+theorem separated : SeparatedMol exScheme exMol exMol := by
+  intro a b ha hb
+  have hd : descsOf (toInput exScheme (aromatizeBenson exMol)) = [("CH", 1)] := by decide +kernel
+  have hasg : assignCentres (toInput exScheme (aromatizeBenson exMol)) = .ok [(1, ("H", "H")), (0, ("C", "C"))] := by
+    decide +kernel
+  rw [hasg] at ha hb
+  cases ha; cases hb
+  have hgr : groupsOf (toInput exScheme (aromatizeBenson exMol)) [(1, ("H", "H")), (0, ("C", "C"))]
+      = [("C(H)", 1), ("H(C)", 1)] := by decide +kernel
+  intro t ht
+  rw [hd] at ht
+  have : t = "CH" := by simpa [Counts.keys] using ht
+  subst this
+  rw [hgr]
+  decide +kernel
+
+def hOf (r : Except Err Estimator) (T : Rat) : Option Rat :=
+  match r with | .ok e => (match e.HoRT T with | .ok v => some v | .error _ => none) | .error _ => none
+def qOf (r : Except Err Estimator) : Option Rat :=
+  match r with | .ok e => e.uq.map (·.q) | .error _ => none
+def rangeOf (r : Except Err Estimator) : Option (Option (Rat × Rat)) :=
+  match r with | .ok e => some e.range | .error _ => none
+
+/-- the three pipelines return estimates; `H/RT(300)`: 3 − 1 + 1/4 = 9/4 for the fragment, 9/2 for the pair -/
+example : hOf (pipeline ["thermochem"] exScheme lib exMol "thermochem") 300 = some (9/4) ∧
+    hOf (pipeline ["thermochem"] exScheme lib (exMol.union exMol) "thermochem") 300 = some (9/2) := by decide +kernel
+/-- the range of the pair is the intersection `[200, 1000]` of `[100, 1000]` and `[200, 1500]` -/
+example : rangeOf (pipeline ["thermochem"] exScheme lib (exMol.union exMol) "thermochem") = some (some (200, 1000)) := by
+  decide +kernel
+/-- `x = (1,1,1)` gives `q = 8`; the pair has `x = (2,2,2)` and `q = 32 = 8 + 8 + 8 + 8` -/
+example : qOf (pipeline ["thermochem"] exScheme lib exMol "thermochem") = some 8 ∧
+    qOf (pipeline ["thermochem"] exScheme lib (exMol.union exMol) "thermochem") = some 32 := by decide +kernel
+/-- failure clause: without data for the correction descriptor each part and the pair raise the missing-data error naming it -/
+example : pkindOf (pipeline ["thermochem"] exScheme libNoCH exMol "thermochem") = some (.estimate .missing) ∧
+    pkindOf (pipeline ["thermochem"] exScheme libNoCH (exMol.union exMol) "thermochem") = some (.estimate .missing) := by
+  decide +kernel
+
+end ExMix
+
+/-- the witness: `q(A ⊔ A) = 32 ≠ 8 + 8` -/
+theorem PIPE_mixture_quadratic_additive_full_fails : ¬ PIPE_mixture_quadratic_additive_full := by
+  intro h
+  open ExMix PGA.C04 in
+  have e1 : qOf (pipeline ["thermochem"] exScheme lib exMol "thermochem") = some 8 := by decide +kernel
+  open ExMix PGA.C04 in
+  have e2 : qOf (pipeline ["thermochem"] exScheme lib (exMol.union exMol) "thermochem") = some 32 := by decide +kernel
+  cases hA : pipeline ["thermochem"] PGA.C04.exScheme ExMix.lib PGA.C04.exMol "thermochem" with
+  | error e => rw [hA] at e1; cases e1
+  | ok eA =>
+    cases hU : pipeline ["thermochem"] PGA.C04.exScheme ExMix.lib (PGA.C04.exMol.union PGA.C04.exMol) "thermochem" with
+    | error e => rw [hU] at e2; cases e2
+    | ok eU =>
+      rw [hA] at e1; rw [hU] at e2
+      simp only [ExMix.qOf] at e1 e2
+      cases hqA : eA.uq with
+      | none => rw [hqA] at e1; cases e1
+      | some qA =>
+        cases hqU : eU.uq with
+        | none => rw [hqU] at e2; cases e2
+        | some qU =>
+          have := h _ _ _ _ _ _ ExMix.hyps ExMix.separated eU eA eA qU qA qA hU hA hA hqU hqA hqA
+          rw [hqA] at e1; rw [hqU] at e2
+          simp only [Option.map_some, Option.some.injEq] at e1 e2
+          rw [e1, e2] at this
+          exact absurd this (by decide +kernel)
+
+/-! ### C19 ∘ C14/C01 — the spelling of group names -/
+
+section
+open PGA.GroupName
+
+/-- **The spelling of a group name in a library file does not matter.**  Two `groups:` sections that differ only in how the
+entries' names are written — the peripherals in any order, split into runs at will, repeat counts written or not
+(`SameSpelling`: well-formed spellings of the same centre and the same multiset, C19) — are keyed identically by
+`GroupLibrary._do_load` (same dict, same insertion order, or the same error), whatever the `other_descriptors:` section.
+Hence the loaded libraries are equal and every pipeline outcome — for every scheme, molecule, property set, temperature — is
+the same. -/
+theorem PIPE_spelling_independent (groups groups' : List (Name × List (String × Corr))) (descs : List (String × List (String × Corr)))
+    (h : SameSpelling groups groups') :
+    loadContents groups' descs = loadContents groups descs ∧
+    ∀ c c', loadContents groups descs = .ok c → loadContents groups' descs = .ok c' →
+      ∀ (uq : Option (UQ String)) (nm : Option (List Nat)) (reg : List String) (S : SchemeDef) (m : Mol) (set : String),
+        pipeline reg S ⟨c', uq, nm⟩ m set = pipeline reg S ⟨c, uq, nm⟩ m set := by
+  have e : loadContents groups' descs = loadContents groups descs := by
+    unfold loadContents
+    rw [loadGroups_sameSpelling groups groups' h]
+  refine ⟨e, ?_⟩
+  intro c c' hc hc' uq nm reg S m set
+  rw [e, hc] at hc'
+  cases hc'
+  rfl
+
+/-- **Looking a group up by `Group` object does not depend on the order of its peripherals**, and finds the entry however the
+library file spelled it: if the library loaded and its `groups:` section has an entry written `spell c r` (well-formed),
+then `lib[Group(scheme, c, psgs)]` is that entry's data for every list `psgs` that is a reordering of the peripherals `r`
+denotes.  This is the look-up the decomposition performs for the groups it finds: the name it hands over for an atom is
+the canonical name of `Group(centre, neighbours' peripherals)` (`PIPE_group_keys_canonical`). -/
+theorem PIPE_spelling_lookup (groups : List (Name × List (String × Corr))) (descs : List (String × List (String × Corr)))
+    (cont : List (String × List (String × Corr))) (hl : loadContents groups descs = .ok cont)
+    (c : Name) (r : List Run) (ps : List (String × Corr)) (hm : (spell c r, ps) ∈ groups) (hw : WFRuns c r)
+    (psgs : List Name) (hp : (expandRuns r).Perm psgs) (uq : Option (UQ String)) (nm : Option (List Nat)) :
+    getItemGroup ⟨cont, uq, nm⟩ c psgs = ps := by
+  unfold loadContents at hl
+  cases hg : loadGroups groups [] with
+  | error e => simp [hg] at hl
+  | ok acc =>
+    simp only [hg] at hl
+    have h1 := (loadGroups_lookup groups [] acc hg).2 (spell c r) ps ⟨c, expandRuns r⟩ hm (C19_parse_spell c r hw)
+    have h2 := loadDescs_lookup descs acc cont hl _ _ h1
+    unfold getItemGroup Library.getItem
+    have : canon c psgs = Group.name ⟨c, expandRuns r⟩ := (canon_perm c hp).symm
+    rw [this]
+    simp only [h2]
+
+/-- the same entry through two `Group` objects with the peripherals in different orders (`Group.__eq__`/`__hash__` go by
+canonical name: C19) -/
+theorem PIPE_spelling_group_order (lib : Lib) (c : Name) (ps ps' : List Name) (h : ps.Perm ps') :
+    getItemGroup lib c ps = getItemGroup lib c ps' := by
+  unfold getItemGroup; rw [canon_perm c h]
+
+/-- **The names the decomposition produces for groups are canonical names**: every name the group loop lists is
+`Group(centre, peripherals).name` for the centre name of an atom and the peripheral names of its neighbours — so the string
+key handed to `Estimate` is the one the library's `Group` keys compare equal to.  (Remap targets and correction-descriptor
+names, by contrast, reach `Estimate` exactly as the scheme file spells them.) -/
+theorem PIPE_group_keys_canonical (a : Assign) (nbrs : List (List Nat)) (is : List Nat) (t : String)
+    (h : t ∈ Counts.keys (countGroups a nbrs is [])) :
+    ∃ csg psgs, t = String.ofList (canon csg psgs) := by
+  rw [mem_keys_countGroups] at h
+  rcases h with h | ⟨i, _, hi⟩
+  · simp [Counts.keys] at h
+  · unfold groupName at hi
+    split at hi
+    · cases hi
+    · split at hi
+      · cases hi
+      · cases hi
+        exact ⟨_, _, rfl⟩
+
+/-- **Full statement for string keys — false of the code.**  A *string* key is compared with the stored `Group`'s canonical
+name (`Descriptor.__eq__` against `str`), so a string that spells the group differently finds nothing: the look-up returns
+`{}` and `Estimate` raises `GroupMissingDataError`. -/
+def PIPE_spelling_raw_string_full : Prop :=
+  ∀ (groups : List (Name × List (String × Corr))) (descs : List (String × List (String × Corr)))
+    (cont : List (String × List (String × Corr))), loadContents groups descs = .ok cont →
+    ∀ (c : Name) (r : List Run) (ps : List (String × Corr)), (spell c r, ps) ∈ groups → WFRuns c r →
+    ∀ uq nm, (⟨cont, uq, nm⟩ : Lib).getItem (String.ofList (spell c r)) = ps
+
+/-- **… proved part**: a string key finds the entry when it *is* the canonical name. -/
+theorem PIPE_spelling_raw_string_partial (groups : List (Name × List (String × Corr))) (descs : List (String × List (String × Corr)))
+    (cont : List (String × List (String × Corr))) (hl : loadContents groups descs = .ok cont)
+    (c : Name) (r : List Run) (ps : List (String × Corr)) (hm : (spell c r, ps) ∈ groups) (hw : WFRuns c r)
+    (t : String) (ht : t = String.ofList (canon c (expandRuns r))) (uq : Option (UQ String)) (nm : Option (List Nat)) :
+    (⟨cont, uq, nm⟩ : Lib).getItem t = ps := by
+  rw [ht]
+  exact PIPE_spelling_lookup groups descs cont hl c r ps hm hw (expandRuns r) (List.Perm.refl _) uq nm
+
+namespace ExSpell
+def corr : Corr := ⟨fun _ => .ok 1, fun _ => .ok (3/2), fun _ => .ok 2, none⟩
+/-- `C(H)(C)` and `C(C)1(H)`: two spellings of the group whose canonical name is `C(C)(H)` -/
+def r₁ : List Run := [⟨['H'], none⟩, ⟨['C'], none⟩]
+def r₂ : List Run := [⟨['C'], some 1⟩, ⟨['H'], none⟩]
+def groups₁ : List (Name × List (String × Corr)) := [(spell ['C'] r₁, [("thermochem", corr)])]
+def groups₂ : List (Name × List (String × Corr)) := [(spell ['C'] r₂, [("thermochem", corr)])]
+
+theorem small (n : Nat) (h : n < 10) : n < PGA.Chars.intLimit := by
+  show n < 10 ^ PGA.Gen.Chars.intMaxStrDigits
+  exact Nat.lt_of_lt_of_le h (Nat.le_self_pow (Nat.pos_iff_ne_zero.mp C19_tab_limit_pos) 10)
+
+theorem wf₁ : WFRuns ['C'] r₁ := by
+  refine ⟨by decide +kernel, ?_⟩
+  intro r hr
+  simp only [r₁, List.mem_cons, List.not_mem_nil, or_false] at hr
+  rcases hr with rfl | rfl
+  · exact ⟨by decide +kernel, small 1 (by decide)⟩
+  · exact ⟨by decide +kernel, small 1 (by decide)⟩
+
+theorem wf₂ : WFRuns ['C'] r₂ := by
+  refine ⟨by decide +kernel, ?_⟩
+  intro r hr
+  simp only [r₂, List.mem_cons, List.not_mem_nil, or_false] at hr
+  rcases hr with rfl | rfl
+  · exact ⟨by decide +kernel, small 1 (by decide)⟩
+  · exact ⟨by decide +kernel, small 1 (by decide)⟩
+
+/-- non-vacuity of `PIPE_spelling_independent` -/
+theorem same : SameSpelling groups₁ groups₂ :=
+  List.Forall₂.cons ⟨rfl, ['C'], r₁, r₂, rfl, rfl, wf₁, wf₂, by decide⟩ List.Forall₂.nil
+
+/-- the sorted distinct peripherals (`List.mergeSort` is unfolded by `simp`: the kernel does not reduce it) -/
+theorem keys_HC : keys [['H'], ['C']] = [['C'], ['H']] := by
+  unfold keys
+  have : GroupName.uniq [['H'], ['C']] = [['H'], ['C']] := by decide +kernel
+  rw [this]
+  simp [List.mergeSort, List.MergeSort.Internal.splitInTwo, List.merge, nameLe]
+  decide
+
+theorem canon_HC : String.ofList (canon ['C'] [['H'], ['C']]) = "C(C)(H)" := by
+  unfold canon
+  rw [keys_HC]
+  decide +kernel
+
+/-- the library loaded from the first file is keyed by the canonical name … -/
+theorem loaded : loadContents groups₁ [] = .ok [("C(C)(H)", [("thermochem", corr)])] := by
+  have hp : parse (spell ['C'] r₁) = .ok ⟨['C'], expandRuns r₁⟩ := C19_parse_spell ['C'] r₁ wf₁
+  have hk : String.ofList (Group.name ⟨['C'], expandRuns r₁⟩) = "C(C)(H)" := canon_HC
+  unfold loadContents groups₁
+  rw [loadGroups_cons_ok _ _ _ _ _ hp, hk]
+  rfl
+
+/-- … and so is the one loaded from the second -/
+example : loadContents groups₂ [] = .ok [("C(C)(H)", [("thermochem", corr)])] := by
+  rw [(PIPE_spelling_independent groups₁ groups₂ [] same).1]; exact loaded
+
+/-- `lib[Group('C', ['C', 'H'])]` and `lib[Group('C', ['H', 'C'])]` both find the entry written `C(H)(C)` -/
+example : getItemGroup ⟨[("C(C)(H)", [("thermochem", corr)])], none, none⟩ ['C'] [['C'], ['H']] = [("thermochem", corr)] :=
+  PIPE_spelling_lookup groups₁ [] _ loaded ['C'] r₁ _ (by simp [groups₁]) wf₁ [['C'], ['H']] (by decide) none none
+end ExSpell
+
+/-- the witness: a library whose only entry is written `C(H)(C)` is keyed `C(C)(H)`; the string `'C(H)(C)'` finds nothing
+(on the real code: `lib.Estimate({'C(H)3(C)': 2}, 'thermochem')` raises `GroupMissingDataError` where the same library
+answers for `'C(C)(H)3'` and for `Group.parse(scheme, 'C(H)3(C)')` — `notes/Pipeline.md`) -/
+theorem PIPE_spelling_raw_string_full_fails : ¬ PIPE_spelling_raw_string_full := by
+  intro h
+  have := h ExSpell.groups₁ [] _ ExSpell.loaded ['C'] ExSpell.r₁ [("thermochem", ExSpell.corr)] (by simp [ExSpell.groups₁])
+    ExSpell.wf₁ none none
+  have hne : ((⟨[("C(C)(H)", [("thermochem", ExSpell.corr)])], none, none⟩ : Lib).getItem
+      (String.ofList (spell ['C'] ExSpell.r₁))).length = 0 := by decide +kernel
+  rw [this] at hne
+  cases hne
+
+end
+
 end PGA.Pipeline
